@@ -496,6 +496,17 @@ Fixpoint spec_events (sc : sconfig) (p : qstate * qstate) (f : N) (evs : list co
 Definition spec_server_events (sc : sconfig) (t0 : N) (evs : list conn_event) : list conn_result * lstatus :=
   spec_events sc (qinit t0, qinit t0) 0 evs.
 
+(** Calls of [register] with address [b] that an event list can cause (on either manager), and the
+    smaller of the two configured maxima. *)
+Fixpoint ev_calls_of (b : N) (evs : list conn_event) : N :=
+  match evs with
+  | [] => 0
+  | Conn a _ reqs :: r => (if a =? b then 1 + N.of_nat (length reqs) else 0) + ev_calls_of b r
+  | Other _ a _ :: r => (if a =? b then 1 else 0) + ev_calls_of b r
+  | _ :: r => ev_calls_of b r
+  end.
+Definition min_max (sc : sconfig) : N := N.min (max_requests (pre_cfg sc)) (max_requests (host_cfg sc)).
+
 (** ------------------------------------------------------------------------------------
     xval interface.
     config  : (L (N max) (N check_every) (L (N kind) (N v)))   kind 0: reset after v clock units,
